@@ -56,4 +56,14 @@ TEXT.update({
                  'leaf through an equal copy) and the node/array decision of std_allocator::allocate/deallocate for element types of size/alignment (1,1) (3,1) (24,8) (48,16). '
                  'Real libstdc++ container code (rebalancing, rehash, list surgery in libstdc++.so) is outside the claim.', 'note': NOTE},
 })
+TEXT.update({
+ 'C11': {'text': 'allocate_joint over a recording leaf with symbolic additional size (0..64, exact fit included), two member arrays of symbolic lengths and a '
+                 'constructor failing at a symbolic index: one upstream node of sizeof(T)+additional, every piece inside the joint memory behind the object, aligned, '
+                 'disjoint; a request that does not fit throws out_of_fixed_memory; destruction/reset/move release the block whole, once, with the allocation parameters. '
+                 'clone_joint is checked in the thorough tier only.', 'note': NOTE},
+ 'C20': {'text': 'Exception model on the real code (landing pads, catch(...)/rethrow of detail::construct, unique_ptr guards): element type whose constructors throw at a '
+                 'symbolic call index; on the exceptional path every constructed element is destroyed exactly once, none twice or unconstructed, the memory is '
+                 'released once with the request parameters and the exception propagates; on success constructed and later destroyed once each. allocate_shared is '
+                 'outside the claim (its libstdc++ control-block code exceeded the solver budget).', 'note': NOTE},
+})
 NOT_APPLICABLE = {}
